@@ -233,6 +233,12 @@ fn tplx_records(w: &mut NdWriter) -> usize {
     "UP": {"convert": {"source": "$ARG", "toCase": "upperCase"}},
     "HEAD": {"substring": {"source": "$ARG", "startChar": 0, "endChar": 3}},
     "KEBAB": {"convert": {"source": "$UP", "toCase": "kebabCase"}},
+    // names that are proper prefixes of other variables of the templates (`$ARG`, `$UP`, `$$$REST`, `$HEAD`): a variable is
+    // read up to the end of its name, whatever shorter names exist
+    "AR": {"convert": {"source": "$ARG", "toCase": "upperCase"}},
+    "U": {"substring": {"source": "$ARG", "startChar": 1}},
+    "RES": {"convert": {"source": "$ARG", "toCase": "lowerCase"}},
+    "HEA": {"substring": {"source": "$ARG", "endChar": 1}},
   });
   let mut n = 0;
   for (si, src) in sources.iter().enumerate() {
@@ -273,7 +279,7 @@ fn tplx_records(w: &mut NdWriter) -> usize {
               _ => {}
             }
           }
-          for key in ["UP", "HEAD", "KEBAB"] {
+          for key in ["UP", "HEAD", "KEBAB", "AR", "U", "RES", "HEA"] {
             if let Some(b) = env.get_transformed(key) {
               vals.push(json!({"name": chars(key), "multi": false, "val": chars(&String::from_utf8_lossy(b))}));
             }
